@@ -619,13 +619,15 @@ def planOf (hs : List (String × String)) (name : String)
   ⟨name, d.verb, d.path, subs, if d.verb.hasBody then [] else queryOpsOf c,
     if d.verb.hasBody then none else c.dict, dictPtr, c.body, ctx, headersFor hs d.verb⟩
 
+def cookedOk (m : Method) : Bool := match cookMethod m with | .ok .. => true | _ => false
+
 /-- the whole generator on one interface -/
 def generate (i : Iface) : GenRes :=
   let hs := setAll [] (strKVs (parseHeaders i.headersDoc))
   match collect (i.methods.map cookMethod) with
   | none => .fatal
   | some cooked =>
-    let names := (i.methods.filter (fun m => match cookMethod m with | .ok .. => true | _ => false)).map (·.name)
+    let names := (i.methods.filter cookedOk).map (·.name)
     let plans := (cooked.zip names).map (fun (x, name) => planOf hs name x.1 x.2.1 x.2.2)
     -- Q5: range over a pointer to a map; a skipped method leaves the interface unimplemented
     let bad := plans.any (fun p => p.dict.isSome && p.dictIsPtr)
